@@ -4,6 +4,7 @@
 import sys, os, json, subprocess, shutil, re
 prop, x = sys.argv[1], sys.argv[2]
 src = "/tmp/mut/%s.out/%s" % (prop, x); name = "%s-%s" % (prop, x)
+if len(sys.argv) > 3: src = sys.argv[3]   # explicit source directory (seeds made on the repaired tree: run with BASE=HEAD)
 out = subprocess.run(["/verif/tools/confirm_seed.sh", src, name], stdout=subprocess.PIPE, stderr=subprocess.STDOUT, text=True).stdout.strip().split("\n")[-1]
 print(out)
 ok = ("applies=yes" in out and "build_rc=0" in out and "0 tests failed out of 185" in out and "demo_compile_rc=0" in out
@@ -14,7 +15,7 @@ dst = "/verif/seeded/" + name
 os.makedirs(dst, exist_ok=True)
 for f in ("patch.diff", "demo.cpp", "meta.json"): shutil.copyfile(os.path.join(src, f), os.path.join(dst, f))
 meta = json.load(open(os.path.join(dst, "meta.json")))
-meta["confirmed_by_verif"] = {"ran": "tools/confirm_seed.sh in scratch worktree /tmp/confirm_wt at pinned commit 1e4eb61: git apply, cmake --build, ctest -j16, demo with and without the patch", "result": out}
+meta["confirmed_by_verif"] = {"ran": "tools/confirm_seed.sh in a scratch worktree at " + os.environ.get("BASE", "pinned commit 1e4eb61") + ": git apply, cmake --build, ctest -j16, demo with and without the patch", "result": out}
 r = subprocess.run(["/verif/tools/seedtest.sh", prop, os.path.join(dst, "patch.diff")], stdout=subprocess.PIPE, stderr=subprocess.STDOUT, text=True).stdout
 viol = [l for l in r.split("\n") if l.startswith("VIOLATION")]
 meta["verif_check"] = {"cmd": "git -C /repo apply patch.diff; ./check %s --quick; git -C /repo checkout -- ." % prop, "detected": bool(viol), "violation_lines": viol[:4],
